@@ -128,8 +128,10 @@ func (p *Proxy) serveClients(ctx context.Context) {
 func (p *Proxy) forwardRpc(source string, rpc *goatorepo.Rpc) {
 	// Sanity check RPC first
 	if rpc.Header == nil || rpc.Header.Source != source {
-		log.Warn().Msgf("Bad Rpc: %v", rpc)
-		log.Panic().Msg("TODO: handle invalid RPC here (log and ignore?)")
+		// A peer can send anything: an envelope without a header, or one that
+		// claims another peer's name, is logged and dropped.
+		log.Warn().Str("peer", source).Msgf("Proxy: dropping invalid Rpc: %v", rpc)
+		return
 	}
 
 	// Apply any sort of address translation first: this allows implementing a
